@@ -281,8 +281,26 @@ func (d *refDriver) exec(in refEv) (out refEv) {
 	return out
 }
 
+// refParseResult projects a parse result: ok, the four parts, String() of the result, and
+// pv: what the implementation's OWN predicates say about each returned part
+// (0 false, 1 true, 2 not asked because the part is empty or the parse failed).
 func refParseResult(r ociref.Reference, err error) refEv {
-	return refEv{"ok": err == nil, "ref": refParts(r), "str": refCodes(r.String())}
+	pv := []int{2, 2, 2, 2}
+	if err == nil {
+		ask := func(i int, part string, f func(string) bool) {
+			if part != "" {
+				pv[i] = 0
+				if f(part) {
+					pv[i] = 1
+				}
+			}
+		}
+		ask(0, r.Host, ociref.IsValidHost)
+		ask(1, r.Repository, ociref.IsValidRepository)
+		ask(2, r.Tag, ociref.IsValidTag)
+		ask(3, string(r.Digest), ociref.IsValidDigest)
+	}
+	return refEv{"ok": err == nil, "ref": refParts(r), "str": refCodes(r.String()), "pv": pv}
 }
 
 func refAny(xs []int) []any {
@@ -671,7 +689,59 @@ func refMutate(r *rand.Rand, s string) string {
 	return string(b)
 }
 
+// refLongLens: lengths around every limit the grammar, the code or a plausible shortcut in
+// it knows (tag 128, repository / DNS name 255, DNS name plus ":65535" 261, and beyond).
+var refLongLens = []int{128, 129, 255, 256, 257, 261, 262, 263, 300, 300, 1000, 4096}
+
+// refRepeat builds a string of exactly n bytes (n >= 4) by repeating unit and padding the
+// last element with pad characters, so that it stays a valid host / repository / tag body.
+func refRepeat(unit string, pad byte, n int) string {
+	k := (n - 1) / len(unit)
+	return strings.Repeat(unit, k) + strings.Repeat(string(pad), n-k*len(unit))
+}
+
+// refLong returns a reference (or a bare part) one of whose parts is built by repetition up
+// to one of the lengths of refLongLens.
+func refLong(r *rand.Rand) string {
+	n := refLongLens[r.Intn(len(refLongLens))] + r.Intn(3) - 1
+	unit := refOneOf(r, "a1.", "ab-c.", "x.", "Reg-1.io.")
+	host := refRepeat(unit, 'z', n)
+	if r.Intn(4) == 0 {
+		host = refRepeat(unit, 'z', n-5) + ":" + refPick(r, "0123456789", 4)
+	}
+	repo := refRepeat(refOneOf(r, "a/", "ab__c/", "x.y-z/", "lib/"), 'q', n)
+	tag := refRepeat(refOneOf(r, "v1.", "A_b-", "x"), '0', n)
+	dig := refOneOf(r, "sha256", "sha512") + ":" + refPick(r, refHex, n)
+	switch r.Intn(9) {
+	case 0:
+		return host
+	case 1:
+		return repo
+	case 2:
+		return tag
+	case 3:
+		return dig
+	case 4:
+		return host + "/" + refRepoGen(r)
+	case 5:
+		return host + "/" + refRepoGen(r) + ":" + refTagGen(r)
+	case 6:
+		return refOneOf(r, "", "reg.example/", "localhost:5000/") + repo + refOneOf(r, "", ":v1")
+	case 7:
+		return refOneOf(r, "", "reg.example/") + refRepoGen(r) + ":" + tag
+	default:
+		return refOneOf(r, "", "reg.example/") + refRepoGen(r) + "@" + dig
+	}
+}
+
 func refRandom(r *rand.Rand) string {
+	if r.Intn(40) == 0 {
+		s := refLong(r)
+		if r.Intn(5) == 0 {
+			s = refMutate(r, s)
+		}
+		return s
+	}
 	switch k := r.Intn(20); {
 	case k < 6:
 		return refAssemble(r)
